@@ -173,4 +173,40 @@ Section ExtProof.
     - unfold step_x, composite. rewrite Hd. destruct (outer_pre c k d). reflexivity.
     - apply composite_correct; auto. intro cs. apply out_cols_replace.
   Qed.
+
+  (** ** Every list over select/where/orderBy/limit/distinct/withColumn/withColumnRenamed/drop/fillna/replace *)
+  Definition x_ok (d : df) (ics : list string) (x : xop) : bool :=
+    match x with
+    | XCore u => op_ok c d ics (desugar (cur_cols d) u)
+    | XFillna _ | XReplace _ _ => true
+    | _ => false
+    end.
+  Fixpoint xs_ok (d : df) (ics : list string) (xs : list xop) : bool :=
+    match xs with
+    | [] => true
+    | x :: xs' => x_ok d ics x &&
+                  match step_x c deco d x with Some d' => xs_ok d' ics xs' | None => false end
+    end.
+
+  Theorem xchain_correct kf kr xs : forall d ics input,
+    deco "fillna"%string = Some kf -> composite_ok kf = true ->
+    deco "replace"%string = Some kr -> composite_ok kr = true ->
+    cols input = ics -> wf_frame input -> InvR c d ics -> xs_ok d ics xs = true ->
+    exists d', run_x c deco d xs = Some d' /\ eval_df d' input = spec_xrun xs (eval_df d input).
+  Proof.
+    induction xs as [|x xs IH]; intros d ics input Hf Hkf Hr Hkr Hics Hwf HI Hok; simpl.
+    - exists d. split; reflexivity.
+    - simpl in Hok. apply andb_true_iff in Hok. destruct Hok as [Hx Hrest].
+      assert (Hstep : exists d1, step_x c deco d x = Some d1 /\
+                                 eval_df d1 input = spec_x x (eval_df d input) /\ InvR c d1 ics).
+      { destruct x; simpl in Hx; try discriminate.
+        - exists (step c d (desugar (cur_cols d) u)). split; [reflexivity|].
+          destruct (step_correct c Hcfg Hlim d ics input _ Hics Hwf HI Hx) as [He HI'].
+          split; [|exact HI']. rewrite He. reflexivity.
+        - apply (fillna_correct kf); auto.
+        - apply (replace_correct kr); auto. }
+      destruct Hstep as (d1 & Hs & He & HI1). rewrite Hs in Hrest |- *.
+      destruct (IH d1 ics input Hf Hkf Hr Hkr Hics Hwf HI1 Hrest) as (d' & Hrun & Hev).
+      exists d'. split; [exact Hrun|]. rewrite Hev, He. reflexivity.
+  Qed.
 End ExtProof.
